@@ -65,6 +65,7 @@ type callOutcome struct {
 	Panic    string
 	Verify   bool // refused with a verification error
 	Accepted bool // passed the verification step (any other outcome)
+	Raw      json.RawMessage
 }
 
 // guardedCall issues a call on a synchronous service behind recover.
@@ -78,6 +79,7 @@ func guardedCall(svc jsonrpc2.Service, method string, params ...interface{}) (ou
 	defer cancel()
 	var raw json.RawMessage
 	out.Err = svc.Call(ctx, &raw, method, params...)
+	out.Raw = raw
 	if out.Err != nil && strings.Contains(out.Err.Error(), "failed to verify signature") {
 		out.Verify = true
 	} else {
